@@ -231,6 +231,62 @@ def js_runtime_call_rules(ck, rule, facts):
         ck.bad(rule, "js-call/floor", "only %d runtime call sites found in the JS generator and templates" % ncall)
 
 
+SYM_EXCEPTIONS = {
+    # only input structs have a `<Name>_obj` literal type to un-import; an out struct is never constructed from JS
+    "diplomat_tool::js::run": "the `_obj` self-import exists for input structs only",
+}
+
+
+def struct_outstruct_symmetry(ck, rule, facts, backends):
+    """A struct and an out-struct are the same repr(C) record: wherever a backend decides something by matching on TypeDef / TypeId / ReturnableStructDef and gives
+    `Struct` an arm of its own, `OutStruct` does not silently fall into a catch-all with a different (non-panicking) answer.  Shared by C08 (js) and C10 (other backends)."""
+    tool = facts.tool
+    adts = facts.all_adts()
+    ck.rule(rule, "Struct / OutStruct symmetry: a decision taken by matching on TypeDef / TypeId / ReturnableStructDef treats an out-struct like the struct it mirrors (same arm, an arm of its own, or a panic), never a silent default")
+    nsym = 0
+    for f in tool.fn_list:
+        if "hir" not in f or f.get("exp"):
+            continue
+        p_ = C.norm_path(f["path"])
+        if (p_.split("::")[1] if p_.count("::") >= 1 else "") not in backends:
+            continue
+        for n in C.walk(C.fn_body(f)):
+            mt = n if n.get("k") == "match" else (C.iflet_as_match(n) if n.get("k") == "if" else None)
+            if not mt or not mt.get("arms"):
+                continue
+            p0 = mt["arms"][0]["pat"]
+            while isinstance(p0, dict) and p0.get("k") == "ref":
+                p0 = p0["sub"]
+            sadt = mt.get("sadt") or (p0.get("adt") if isinstance(p0, dict) and p0.get("k") == "variant" else "") or ""
+            a = adts.get(sadt)
+            if not a or not re.search(r"(TypeDef|TypeId|ReturnableStructDef)$", sadt) or not {"Struct", "OutStruct"} <= {v["name"] for v in a["variants"]}:
+                continue
+
+            def arm_of(vn):
+                for i, arm in enumerate(mt["arms"]):
+                    p = arm["pat"]
+                    for q in (p["alts"] if p.get("k") == "or" else [p]):
+                        while q.get("k") == "ref":
+                            q = q["sub"]
+                        if q.get("k") == "variant" and q.get("v") == vn:
+                            return i, "own"
+                        if q.get("k") in ("wild", "bind"):
+                            return i, "wild"
+                return None, None
+            (si, sk), (oi, okd) = arm_of("Struct"), arm_of("OutStruct")
+            nsym += 1
+            for own, (wi, wk), who in ((sk, (oi, okd), "OutStruct"), (okd, (si, sk), "Struct")):
+                if own == "own" and wk == "wild" and not (C.diverges(mt["arms"][wi]["b"]) or C.panic_macro_of(mt["arms"][wi]["b"])):
+                    if p_ in SYM_EXCEPTIONS:
+                        ck.ok(rule, "%s/%s-default" % (p_.replace("diplomat_tool::", ""), who), "triaged: " + SYM_EXCEPTIONS[p_], C.loc(f, n.get("ln")))
+                    else:
+                        ck.bad(rule, "%s/%s-default" % (p_.replace("diplomat_tool::", ""), who),
+                               "a match on %s gives %s an arm of its own while %s falls into a catch-all with a non-panicking default: the two mirror one record, so by-value returns / nested fields "
+                               "of the other kind are laid out, flattened or converted differently" % (sadt.split("::")[-1], "Struct" if who == "OutStruct" else "OutStruct", who), C.loc(f, n.get("ln")))
+    if nsym < 3:
+        ck.bad(rule, "symmetry-floor/" + "+".join(sorted(backends)), "only %d matches on TypeDef/TypeId/ReturnableStructDef found" % nsym)
+
+
 def run(ck, facts):
     tool = facts.tool
     adts = facts.all_adts()
@@ -246,6 +302,10 @@ def run(ck, facts):
     ck.rule("R7", "values read out of wasm memory use the reader of their wasm32 type (enum: signed i32, pointer: u32, primitive: typed-array table) and a field offset is applied exactly once")
     ck.rule("R6", "legacy-ABI forced padding threshold: a nested two-scalar struct is padded when the outer aggregate has more than two scalars (docs/wasm_abi_quirks.md)")
     ck.not_decided += ["struct_field_info's results for every field order (algorithm correctness beyond the formulas above)", "bytes written by _writeToArrayBuffer for all values", "flattened argument lists for all structs"]
+
+    # the struct generator and the layout computation walk every field, in order (rule shared with C01 / C07)
+    import c07
+    c07.field_walk_rules(ck, "R3", facts, {"js"})
 
     def wl(t):
         """wasm32 (size, align) of a Rust scalar type name"""
@@ -536,6 +596,48 @@ def run(ck, facts):
             ok = i_lit.get("k") == "lit" and i_lit.get("v") == 2 and lo == 3 and hi is None
             detail = "(Scalars(%s), Scalars(%s..%s))" % (i_lit.get("v"), lo, "" if hi is None else hi)
         ck.expect(ok, "R6", "force-padding/threshold", detail, "padding of a nested two-scalar struct is forced for %s; the wasm legacy ABI pads every aggregate with MORE THAN TWO scalars, i.e. (Scalars(2), Scalars(3..))" % detail, C.loc(f2, arm.get("ln")))
+
+    # scalar counts: a cell laid out as a tuple of n wasm scalars counts n scalars, every other leaf cell counts one
+    sc = tool.fn("js::layout::type_size_alignment_and_scalar_count")
+    mt_sc = next((n for n in C.walk(C.fn_body(sc)) if n.get("k") == "match" and (n.get("sadt") or "").endswith("hir::types::Type")), None)
+    nsc = 0
+    for arm in (mt_sc["arms"] if mt_sc else []):
+        b = C.strip(arm["b"])
+        if b.get("k") != "tup" or len(b["a"]) != 2:
+            continue
+        lay, cnt = C.strip(b["a"][0]), C.strip(b["a"][1])
+        if not (cnt.get("k") == "call" and (cnt.get("ctor") or "").endswith("ScalarCount::Scalars") and cnt.get("a") and C.strip(cnt["a"][0]).get("k") == "lit"):
+            continue
+        nsc += 1
+        want = 1
+        ga = ((lay.get("f") or {}).get("ga") or [None])[0] if lay.get("k") == "call" and (lay.get("p") or "").endswith("Layout::new") else None
+        if ga and ga.startswith("("):
+            depth, want = 0, 1
+            for ch in ga[1:-1]:
+                depth += ch in "(<["
+                depth -= ch in ")>]"
+                want += ch == "," and depth == 0
+        got = C.strip(cnt["a"][0]).get("v")
+        ck.expect(got == want, "R6", "scalar-count/%s" % arm["pat"].get("v"), "%s scalars for %s" % (got, ga or "a single scalar"),
+                  "Type::%s is laid out as %s (%d wasm scalars) but counted as %s: aggregates containing it get the wrong legacy-ABI padding decision (>2 scalars are padded)" % (arm["pat"].get("v"), ga or "one scalar", want, got), C.loc(sc, arm.get("ln")))
+    if nsc < 4:
+        ck.bad("R6", "scalar-count/floor", "only %d leaf arms with a literal scalar count found (4 counted: Enum, Opaque, Slice, Primitive)" % nsc, C.loc(sc))
+    # a local called size / align that is filled from a Layout is filled from the accessor of the same name
+    nsa = 0
+    for f2 in tool.fn_list:
+        if "hir" not in f2 or not f2["path"].startswith("diplomat_tool::js::") or f2.get("exp"):
+            continue
+        for n in C.walk(C.fn_body(f2)):
+            if n.get("k") == "letst" and isinstance(n.get("pat"), dict) and n["pat"].get("k") == "bind" and n["pat"].get("n") in ("size", "align") and n.get("init") is not None:
+                i_ = C.strip(n["init"])
+                if i_.get("k") == "mcall" and i_.get("m") in ("size", "align") and "Layout" in (i_.get("rty") or i_.get("p") or ""):
+                    nsa += 1
+                    ck.expect(i_["m"] == n["pat"]["n"], "R8", "%s/let-%s#%d" % (C.norm_path(f2["path"]).split("::")[-1], n["pat"]["n"], sum(1 for i in ck.instances if i["rule"] == "R8" and i["key"].startswith("%s/let-%s#" % (C.norm_path(f2["path"]).split("::")[-1], n["pat"]["n"])))), "%s = layout.%s()" % (n["pat"]["n"], i_["m"]),
+                              "`let %s = ...%s()`: the value interpolated at the runtime function's `%s` position is the layout's %s (the option flag is then looked for at offset + align instead of offset + size)"
+                              % (n["pat"]["n"], i_["m"], n["pat"]["n"], i_["m"]), C.loc(f2, n.get("ln")))
+    if nsa < 4:
+        ck.bad("R8", "size-align-lets/floor", "only %d `let size/align = layout.size()/align()` bindings found in the JS backend" % nsa)
+    struct_outstruct_symmetry(ck, "R9", facts, {"js"})
 
     # ---------------- R7 readers used by the deref generator
     js_deref_rules(ck, "R7", facts)
